@@ -12,6 +12,29 @@ from ..oracles import (decode_array_dir, DecodeError, snapshot, snap_diff, snap_
 from ..readme import check_array_readme
 
 
+def copy_json(x):
+    import json
+    return json.loads(json.dumps(x))
+
+
+C03_ALPHABET = [
+    {'op': 'append', 'data': {'rows': 1, 'trail': 'match', 'layout': 'C', 'form': 'ndarray', 'dtype': 'same', 'gen': 'rand', 'vseed': 0}},
+    {'op': 'append', 'data': {'rows': 2, 'trail': 'match', 'layout': 'strided', 'form': 'list', 'dtype': '<i4', 'gen': 'nonneg', 'vseed': 0}},
+    {'op': 'append', 'data': {'rows': 0, 'trail': 'match', 'layout': 'C', 'form': 'ndarray', 'dtype': 'same', 'gen': 'rand', 'vseed': 0}},
+    {'op': 'iterappend', 'as': 'generator', 'chunks': [
+        {'rows': 1, 'trail': 'match', 'layout': 'C', 'form': 'ndarray', 'dtype': '>f4', 'gen': 'nonneg', 'vseed': 0},
+        {'rows': 2, 'trail': 'match', 'layout': 'T', 'form': 'ndarray', 'dtype': 'same', 'gen': 'rand', 'vseed': 0}]},
+    {'op': 'iterappend', 'as': 'list', 'chunks': []},
+    {'op': 'setitem', 'index': {'k': 'slice', 'a': 0, 'b': 2, 's': None}, 'value': {'k': 'scalar', 'vseed': 5, 'dtype': 'same'}},
+    {'op': 'truncate', 'index': 0, 'by': 'handle'},
+    {'op': 'truncate', 'index': -1, 'by': 'handle'},
+    {'op': 'truncate', 'index': 2, 'by': 'path'},
+    {'op': 'reopen', 'mode': 'r+'},
+    {'op': 'append', 'bad': 'shape', 'data': {'rows': 1, 'trail': 'match', 'layout': 'C', 'form': 'ndarray', 'dtype': 'same', 'gen': 'safe', 'vseed': 0}},
+    {'op': 'truncate', 'index': 1, 'itype': 'float', 'by': 'handle'},
+]
+
+
 def lenbucket(n):
     return '0' if n == 0 else '1' if n == 1 else '2-5' if n <= 5 else '6' if n == 6 else '7+'
 
@@ -145,7 +168,48 @@ class ArrayHistory(Engine):
             return {'op': 'delete'}
         raise HarnessError(k)
 
+    # ---- bounded-exhaustive part of the thorough tier: every op sequence up to
+    # length ENUM_LEN over a compact alphabet, from two start states
+    ENUM_LEN = 4
+    enum_alphabet = None      # set per property in the registry
+
+    def enum_total(self):
+        if not self.enum_alphabet:
+            return 0
+        k = len(self.enum_alphabet)
+        return len(self.enum_starts) * sum(k ** n for n in range(1, self.ENUM_LEN + 1))
+
+    def enum_scenario(self, i):
+        k = len(self.enum_alphabet)
+        per = sum(k ** n for n in range(1, self.ENUM_LEN + 1))
+        start = copy_json(self.enum_starts[i // per])
+        j = i % per
+        n = 1
+        while j >= k ** n:
+            j -= k ** n
+            n += 1
+        seq = []
+        for _ in range(n):
+            seq.append(copy_json(self.enum_alphabet[j % k]))
+            j //= k
+        for t, op in enumerate(seq):      # distinct, reproducible values per position
+            for key in ('data',):
+                if key in op:
+                    op[key]['vseed'] = 1000 + t
+            for d in op.get('chunks', []):
+                d['vseed'] = 2000 + t
+        return {'engine': type(self).__name__, 'prop': self.prop, 'ops': [start] + seq, 'enumerated': True}
+
+    enum_starts = [
+        {'op': 'create', 'how': 'asarray', 'mode': 'r+', 'chunklen': None,
+         'data': {'gen': 'rand', 'rows': 0, 'trail': [], 'dtype': '<f8', 'layout': 'C', 'form': 'ndarray', 'vseed': 1}},
+        {'op': 'create', 'how': 'asarray', 'mode': 'r+', 'chunklen': 2,
+         'data': {'gen': 'rand', 'rows': 3, 'trail': [2], 'dtype': '>i2', 'layout': 'F', 'form': 'ndarray', 'vseed': 2}},
+    ]
+
     def gen(self, rng, i, tier):
+        if tier == 'thorough' and i < self.enum_total():
+            return self.enum_scenario(i)
         n = rng.randint(self.minops, self.maxops if rng.random() < 0.3 else 10)
         ops = [self.gen_create(rng)]
         # swarm: per run, disable a random subset of op kinds
